@@ -3,6 +3,8 @@ import JS.Module
 import JS.MetaEnv
 import JS.Props.C03
 import JS.Props.C04
+import JS.Props.C15
+import JS.Proofs.ValidRef
 namespace JS
 
 /-! ### `check_schema` as a consumer of the metaschema run -/
@@ -98,6 +100,20 @@ theorem accepts_iff (env : Env) (impl : FmtImpl) (g : Globals) (c : ClassDef)
   rw [checkSchema_exhaustive env impl g c fuel s st hst]
   exact Out.verdict_ok _
 
+/-- for a draft's class, in the draft's own terms -/
+theorem checkSchema_draft (env : Env) (impl : FmtImpl) (g : Globals) (d : Draft)
+    (fuel : Nat) (s : Json) (st : RState) (hst : freshResolver env g d.classDef d.metaSchema = .ok st) :
+    checkSchema env impl g d.classDef fuel s =
+      CheckResult.ofOutcome (eval env impl (d.cfg none) fuel s d.metaSchema none st).verdict :=
+  checkSchema_exhaustive env impl g d.classDef fuel s st hst
+
+/-- when the exhaustive run ends normally, the outcome is decided by its errors alone -/
+theorem Out.verdict_done (o : Out) (h : o.stop = .done) :
+    CheckResult.ofOutcome o.verdict = (match o.errs with | [] => .ok | e :: _ => .schemaError e) := by
+  rcases o with ⟨es, stop, st'⟩
+  cases h
+  cases es <;> rfl
+
 /-! ### nothing but SchemaError -/
 
 /-- a draft's class evaluates with the draft's configuration, format checking off -/
@@ -192,5 +208,203 @@ theorem selfCheck_ok (d : Draft) : selfCheck d = .ok := by
   · exact selfCheck_d4
   · exact selfCheck_d6
   · exact selfCheck_d7
+
+/-! ### the reference domain of a metaschema
+
+A finite domain: (base URI in effect) × (schema object), where the base URIs are those the URI table
+of the draft knows and the schema objects are those found at schema positions of the metaschema
+(the values under `definitions` included: they are what the references designate). That this
+product is closed under subschemas and designation, each member shaped as the draft prescribes,
+is a Boolean computation (`domainOk`) — evaluated by the kernel, per draft. -/
+
+section Domain
+open Spec
+
+/-- keywords whose value is a schema or an array of schemas -/
+def listKeys : List Str :=
+  [k!"type", k!"disallow", k!"extends", k!"allOf", k!"anyOf", k!"oneOf", k!"items"]
+/-- keywords whose value is a schema -/
+def schemaKeys : List Str :=
+  [k!"not", k!"if", k!"then", k!"else", k!"contains", k!"propertyNames", k!"additionalItems",
+   k!"additionalProperties"]
+/-- keywords whose value is an object of schemas -/
+def mapKeys : List Str :=
+  [k!"properties", k!"patternProperties", k!"dependencies", k!"definitions"]
+
+mutual
+/-- the schema objects at the schema positions of a schema (an over-approximation is harmless:
+    every one of them is checked) -/
+def nodesOf : Json → List (List (Str × Json))
+  | .obj kvs => kvs :: nodesKvs kvs
+  | _ => []
+def nodesKvs : List (Str × Json) → List (List (Str × Json))
+  | [] => []
+  | (k, v) :: rest =>
+    (if listKeys.contains k then
+      (match v with | .arr xs => nodesList xs | .obj kvs => kvs :: nodesKvs kvs | _ => [])
+     else if schemaKeys.contains k then
+      (match v with | .obj kvs => kvs :: nodesKvs kvs | _ => [])
+     else if mapKeys.contains k then
+      (match v with | .obj ps => nodesVals ps | _ => [])
+     else []) ++ nodesKvs rest
+def nodesList : List Json → List (List (Str × Json))
+  | [] => []
+  | x :: xs => nodesOf x ++ nodesList xs
+def nodesVals : List (Str × Json) → List (List (Str × Json))
+  | [] => []
+  | (_, v) :: rest => nodesOf v ++ nodesVals rest
+end
+
+/-- the domain given by base URIs `tops` and schema objects `nodes`; in drafts 6 and 7 also the
+    boolean schemas -/
+def domOf (d : Draft) (tops : List Str) (nodes : List (List (Str × Json))) (top : Str) (s : Json) : Bool :=
+  match s with
+  | .obj kvs => decide (top ∈ tops) && decide (kvs ∈ nodes)
+  | .bool _ => (d = .d6 || d = .d7)
+  | _ => false
+
+/-- the fields of `RefDomainL` for one member, as a Boolean -/
+def rowOk (env : Env) (d : Draft) (base : List (Str × Json)) (D : Str → Json → Bool)
+    (top : Str) (kvs : List (Str × Json)) : Bool :=
+  WF (.obj kvs)
+  && kvs.all (fun p => nsMember p.1 p.2 && tkMember d p.1 p.2)
+  && (match lookupJ (if (d = .d6 || d = .d7) then "$id" else "id") kvs with | some v => isStrJ v | none => true)
+  && (match idOf d kvs with | some id => (env.urljoin top id).isSome | none => true)
+  && (match lookupJ "$ref" kvs with
+      | none => kvs.all (shapeClause d (D (baseInside env d top kvs)))
+      | some (.str rs) =>
+        (match designated env base top rs with
+         | some (url, t) => decide (env.urljoin top url = some url) && D url t
+         | none => false)
+      | some _ => false)
+  && (!(decide (d = .d3)) || (match lookupJ "required" kvs with | some r => isBoolV r | none => true))
+
+def domainOk (env : Env) (d : Draft) (base : List (Str × Json)) (tops : List Str)
+    (nodes : List (List (Str × Json))) : Bool :=
+  tops.all fun top => nodes.all fun kvs => rowOk env d base (domOf d tops nodes) top kvs
+
+variable {env : Env} {d : Draft} {base : List (Str × Json)} {tops : List Str}
+  {nodes : List (List (Str × Json))}
+
+theorem domOf_obj {top : Str} {kvs : List (Str × Json)}
+    (h : domOf d tops nodes top (.obj kvs) = true) : top ∈ tops ∧ kvs ∈ nodes := by
+  have h' : (decide (top ∈ tops) && decide (kvs ∈ nodes)) = true := h
+  rw [Bool.and_eq_true] at h'
+  exact ⟨of_decide_eq_true h'.1, of_decide_eq_true h'.2⟩
+
+theorem rowOk_of_domainOk (h : domainOk env d base tops nodes = true) {top : Str}
+    {kvs : List (Str × Json)} (hs : domOf d tops nodes top (.obj kvs) = true) :
+    rowOk env d base (domOf d tops nodes) top kvs = true := by
+  obtain ⟨h1, h2⟩ := domOf_obj hs
+  exact List.all_eq_true.1 (List.all_eq_true.1 h top h1) kvs h2
+
+/-- **the Boolean check is sound** -/
+theorem refDomainL_of_domainOk (h : domainOk env d base tops nodes = true) :
+    RefDomainL env d base (domOf d tops nodes) where
+  kind := fun top s hs => by
+    cases s with
+    | obj kvs => exact Or.inl rfl
+    | bool b =>
+      have h' : (decide (d = .d6) || decide (d = .d7)) = true := hs
+      rw [Bool.or_eq_true] at h'
+      exact Or.inr ⟨h'.imp of_decide_eq_true of_decide_eq_true, b, rfl⟩
+    | _ => exact nomatch hs
+  wf := fun top s hs => by
+    cases s with
+    | obj kvs =>
+      have hr := rowOk_of_domainOk h hs
+      simp only [rowOk, Bool.and_eq_true] at hr
+      exact hr.1.1.1.1.1
+    | arr xs => exact nomatch hs
+    | _ => rfl
+  nsl := fun top kvs hs k v hx => by
+    have hr := rowOk_of_domainOk h hs
+    simp only [rowOk, Bool.and_eq_true] at hr
+    have := List.all_eq_true.1 hr.1.1.1.1.2 (k, v) hx
+    rw [Bool.and_eq_true] at this
+    exact this.1
+  tkl := fun top kvs hs k v hx => by
+    have hr := rowOk_of_domainOk h hs
+    simp only [rowOk, Bool.and_eq_true] at hr
+    have := List.all_eq_true.1 hr.1.1.1.1.2 (k, v) hx
+    rw [Bool.and_eq_true] at this
+    exact this.2
+  ident := fun top kvs hs => by
+    have hr := rowOk_of_domainOk h hs
+    simp only [rowOk, Bool.and_eq_true] at hr
+    refine ⟨hr.1.1.1.2, fun id hid => ?_⟩
+    have := hr.1.1.2
+    rw [hid] at this
+    exact this
+  shape := fun top kvs hs hnr => by
+    have hr := rowOk_of_domainOk h hs
+    simp only [rowOk, Bool.and_eq_true] at hr
+    have := hr.1.2
+    rw [hnr] at this
+    exact this
+  ref := fun top kvs r hs hrf => by
+    have hr := rowOk_of_domainOk h hs
+    simp only [rowOk, Bool.and_eq_true] at hr
+    have h5 := hr.1.2
+    rw [hrf] at h5
+    cases r with
+    | str rs =>
+      dsimp only at h5
+      cases hdes : designated env base top rs with
+      | none => rw [hdes] at h5; exact nomatch h5
+      | some p =>
+        obtain ⟨url, t⟩ := p
+        rw [hdes] at h5
+        dsimp only at h5
+        rw [Bool.and_eq_true] at h5
+        exact ⟨rs, url, t, rfl, hdes, of_decide_eq_true h5.1, h5.2⟩
+    | _ => exact nomatch h5
+  req3 := fun hd top kvs hs r hreq => by
+    have hr := rowOk_of_domainOk h hs
+    simp only [rowOk, Bool.and_eq_true] at hr
+    have h6 := hr.2
+    rw [hreq, decide_eq_true hd] at h6
+    exact h6
+
+end Domain
+
+/-! ### the domains of the four metaschemas (kernel evaluation) -/
+
+/-- the resolver state `check_schema` starts from (`Props.C11.metaState`) -/
+def freshState (d : Draft) : Option RState :=
+  match freshResolver (metaEnv d) Globals.initial d.classDef d.metaSchema with
+  | .ok st => some st
+  | _ => none
+
+def freshStore (d : Draft) : List (Str × Json) := match freshState d with | some st => st.store | none => []
+def freshTop (d : Draft) : Str := match freshState d with | some st => st.top | none => []
+
+/-- the base URIs that can be in effect: the resolver's initial one and those the URI table knows -/
+def metaTops (d : Draft) : List Str := (freshTop d :: d.urljoinTable.map (·.1.1)).eraseDups
+
+/-- the domain of a metaschema -/
+def metaDom (d : Draft) : Str → Json → Bool := domOf d (metaTops d) (nodesOf d.metaSchema)
+
+def metaDomOk (d : Draft) : Bool :=
+  domainOk (metaEnv d) d (freshStore d) (metaTops d) (nodesOf d.metaSchema)
+  && metaDom d (freshTop d) d.metaSchema
+  && (match freshState d with | some st => st.memo.isEmpty | none => false)
+
+theorem metaDomOk_d3 : metaDomOk .d3 = true := by decide +kernel
+theorem metaDomOk_d4 : metaDomOk .d4 = true := by decide +kernel
+theorem metaDomOk_d6 : metaDomOk .d6 = true := by decide +kernel
+theorem metaDomOk_d7 : metaDomOk .d7 = true := by decide +kernel
+
+theorem metaDomOk_all (d : Draft) : metaDomOk d = true := by
+  cases d
+  · exact metaDomOk_d3
+  · exact metaDomOk_d4
+  · exact metaDomOk_d6
+  · exact metaDomOk_d7
+
+/-- `numSafe` answers `false` for every bundled metaschema: each has a PROPERTY named
+    `multipleOf` (draft 3: `divisibleBy`) -/
+theorem meta_not_numSafe (d : Draft) : Spec.numSafe d.metaSchema = false := by
+  cases d <;> decide +kernel
 
 end JS
